@@ -1,12 +1,20 @@
 (* Pinned statements for C15: compiled on every check run. A statement weakened in Props/ fails here. *)
 From Coq Require Import List String.
-From TS Require Import Model.Str Model.Outcome Model.Unicode Model.Types Model.Parse.
+From TS Require Import Model.Str Model.Outcome Model.Unicode Model.Syntax Model.Attrs Model.Types Model.Parse.
 From TS Require Import Model.Lang.TypeScript Model.Lang.Kotlin Model.Lang.Swift Model.Lang.Scala Model.Lang.Go Model.Lang.Python.
 From TS Require Import Spec.Lexers Spec.C15Spec.
 From TS Require Proofs.C15.
 Import ListNotations.
 From TS Require Props.C15.
 
+Goal forall uc attrs,
+  parse_comment_attrs uc attrs =
+  flat_map (fun a => match a_meta a with
+                     | MNV p (VStr s) => if path_is_ident p (lit "doc") then [trim uc s] else []
+                     | _ => []
+                     end) attrs.
+Proof. exact Props.C15.C15_front_raw_doc_strings. Qed.
+Print Assumptions Props.C15.C15_front_raw_doc_strings.
 Goal forall indent docs,
   text_of (ts_tmpl indent docs) = ts_comments indent docs /\ docs_of (ts_tmpl indent docs) = docs.
 Proof. exact Props.C15.C15_fragment_ts. Qed.
